@@ -527,12 +527,16 @@ func (b *BlockWise[C]) continueSendingMessage(w *responsewriter.ResponseWriter[C
 	}
 	var sendMessage *pool.Message
 	var more bool
-	b.sendingMessagesCache.LoadWithFunc(r.Token().Hash(), func(value *cache.Element[*pool.Message]) *cache.Element[*pool.Message] {
+	// slicing seeks and reads the shared body reader of the cached message: exclusive access is needed
+	b.sendingMessagesCache.ReplaceWithFunc(r.Token().Hash(), func(value *cache.Element[*pool.Message], loaded bool) (*cache.Element[*pool.Message], bool) {
+		if !loaded {
+			return nil, true
+		}
 		sendMessage, more, err = b.createSendingMessage(value.Data(), maxSZX, maxMessageSize, block, true)
 		if err != nil {
 			err = fmt.Errorf("cannot create sending message: %w", err)
 		}
-		return nil
+		return value, false
 	})
 	if err == nil && sendMessage == nil {
 		err = fmt.Errorf("cannot find sending message for token(%v)", r.Token())
